@@ -16,7 +16,9 @@
 (*   cap     buffer capacity                                                 *)
 (*   dlv     bytes the source has delivered so far                          *)
 (*   sc      remaining read schedule: n > 0 "n bytes are available now",    *)
-(*           0 one Ok(0), -1 "no data until the current call has returned"  *)
+(*           0 one Ok(0), -1 "no data until the current call has returned", *)
+(*           -2 the read fails (the error surfaces as the read error of the *)
+(*           call, C05; what was buffered stays buffered)                   *)
 (*   paused  the -1 step is in force                                        *)
 (* Because the window always mirrors inp[off .. off+len), the buffer's     *)
 (* content need not be stored: decoding "only valid bytes" is decoding the  *)
@@ -30,37 +32,44 @@ CurOff(s) == BufOff(s) + s.ipos                       \* current_offset()
 WinEnd(s) == BufOff(s) + s.len                        \* absolute end of the valid bytes
 Valid(inp, s) == Take(inp, WinEnd(s))
 
-\* one Read::read into a buffer with `room` free bytes
+\* one Read::read into a buffer with `room` free bytes: [n, s, io]
 SrcRead(inp, s, room) ==
   LET left == Len(inp) - s.dlv IN
-  IF s.paused THEN [n |-> 0, s |-> s]
-  ELSE IF s.sc = <<>> THEN LET n == Min(room, left) IN [n |-> n, s |-> [s EXCEPT !.dlv = @ + n]]
+  IF s.paused THEN [n |-> 0, s |-> s, io |-> FALSE]
+  ELSE IF s.sc = <<>> THEN LET n == Min(room, left) IN [n |-> n, s |-> [s EXCEPT !.dlv = @ + n], io |-> FALSE]
   ELSE LET st == s.sc[1] IN
-    IF st = 0 THEN [n |-> 0, s |-> [s EXCEPT !.sc = Tail(@)]]
-    ELSE IF st < 0 THEN [n |-> 0, s |-> [s EXCEPT !.sc = Tail(@), !.paused = TRUE]]
+    IF st = 0 THEN [n |-> 0, s |-> [s EXCEPT !.sc = Tail(@)], io |-> FALSE]
+    ELSE IF st = -1 THEN [n |-> 0, s |-> [s EXCEPT !.sc = Tail(@), !.paused = TRUE], io |-> FALSE]
+    ELSE IF st < -1 THEN [n |-> 0, s |-> [s EXCEPT !.sc = Tail(@)], io |-> TRUE]
     ELSE LET n == Min(Min(st, room), left) IN
-         [n |-> n, s |-> [s EXCEPT !.dlv = @ + n, !.sc = IF n < st /\ n < left THEN <<st - n>> \o Tail(@) ELSE Tail(@)]]
+         [n |-> n, s |-> [s EXCEPT !.dlv = @ + n, !.sc = IF n < st /\ n < left THEN <<st - n>> \o Tail(@) ELSE Tail(@)], io |-> FALSE]
 
-\* ensure_data_read(length): [ok, s]
+\* ensure_data_read(length): [ok, s, io]  (io: the source failed - nothing was added, a compaction that preceded it stays)
 RECURSIVE EnsureLoop(_, _, _)
 EnsureLoop(inp, s, length) ==
-  IF s.ipos + length <= s.len THEN [ok |-> TRUE, s |-> s]
+  IF s.ipos + length <= s.len THEN [ok |-> TRUE, s |-> s, io |-> FALSE]
   ELSE LET c == [s EXCEPT !.len = s.len - s.ipos, !.off = s.off + s.ipos, !.ipos = 0]      \* compaction keeps the current offset
            rd == SrcRead(inp, c, c.cap - c.len) IN
-       IF rd.n = 0 THEN [ok |-> FALSE, s |-> rd.s]
+       IF rd.io THEN [ok |-> FALSE, s |-> rd.s, io |-> TRUE]
+       ELSE IF rd.n = 0 THEN [ok |-> FALSE, s |-> rd.s, io |-> FALSE]
        ELSE EnsureLoop(inp, [rd.s EXCEPT !.len = @ + rd.n], length)
 Ensure(inp, s, length) ==
-  IF s.ipos + length <= s.len THEN [ok |-> TRUE, s |-> s]
+  IF s.ipos + length <= s.len THEN [ok |-> TRUE, s |-> s, io |-> FALSE]
   ELSE IF s.off < 0 THEN                                  \* very first read: a single read, whatever it returns
     LET rd == SrcRead(inp, s, s.cap) IN
-    IF rd.n = 0 THEN [ok |-> FALSE, s |-> rd.s] ELSE [ok |-> TRUE, s |-> [rd.s EXCEPT !.off = 0, !.ipos = 0, !.len = @ + rd.n]]
+    IF rd.io THEN [ok |-> FALSE, s |-> rd.s, io |-> TRUE]
+    ELSE IF rd.n = 0 THEN [ok |-> FALSE, s |-> rd.s, io |-> FALSE]
+    ELSE [ok |-> TRUE, s |-> [rd.s EXCEPT !.off = 0, !.ipos = 0, !.len = @ + rd.n], io |-> FALSE]
   ELSE EnsureLoop(inp, s, length)
+IoErr == ErrRec("io", -1, FALSE, <<>>, FALSE, <<>>, FALSE, <<>>, FALSE, <<>>)
 
 \* peek_valid_tag_header: two look-aheads (16, then 8 inside peek_tag_id), then the checks of ReaderCore on the valid bytes
 PeekHeaderB(sch, cfg, inp, r, s) ==
-  LET s1 == Ensure(inp, s, 16).s
-      s2 == Ensure(inp, s1, 8).s IN
-  [ph |-> PeekHeader(sch, cfg, Valid(inp, s2), [r EXCEPT !.pos = CurOff(s2)]), s |-> s2]
+  LET e1 == Ensure(inp, s, 16) IN
+  IF e1.io THEN [ph |-> [t |-> "err", r |-> r, e |-> IoErr], s |-> e1.s]
+  ELSE LET e2 == Ensure(inp, e1.s, 8) IN
+  IF e2.io THEN [ph |-> [t |-> "err", r |-> r, e |-> IoErr], s |-> e2.s]
+  ELSE [ph |-> PeekHeader(sch, cfg, Valid(inp, e2.s), [r EXCEPT !.pos = CurOff(e2.s)]), s |-> e2.s]
 
 ReadTagB(sch, cfg, inp, r, s) ==
   LET start == CurOff(s)  p == PeekHeaderB(sch, cfg, inp, r, s) IN
@@ -72,7 +81,8 @@ ReadTagB(sch, cfg, inp, r, s) ==
   ELSE LET s2 == [s1 EXCEPT !.cap = Max(@, h.size)]                      \* ensure_capacity: only now, after every check
            en == Ensure(inp, s2, h.size)
            r2 == [r1 EXCEPT !.grown = Max(@, h.size)] IN
-    IF ~en.ok THEN [t |-> "err", r |-> r2, s |-> en.s,
+    IF en.io THEN [t |-> "err", r |-> r2, s |-> en.s, e |-> IoErr]
+    ELSE IF ~en.ok THEN [t |-> "err", r |-> r2, s |-> en.s,
                     e |-> EofErr(start, TRUE, h.id, TRUE, h.sizeW, TRUE, SubSeq(inp, CurOff(en.s) + 1, WinEnd(en.s)))]
     ELSE LET d == CurOff(en.s)  pl == SubSeq(inp, d + 1, d + h.size)  dec == Decode(ty, pl)
              s3 == [en.s EXCEPT !.ipos = @ + h.size] IN
@@ -97,9 +107,10 @@ BufferLoopB(sch, cfg, inp, r, s, id, pre, p, m) ==
 ReadNextB(sch, cfg, inp, r0, s0) ==
   LET r == CloseExhausted([r0 EXCEPT !.pos = CurOff(s0)])
       \* read_tag_checked: with the buffer used up, ask the source for one more byte before concluding "no more tags"
-      probe == IF s0.ipos = s0.len THEN Ensure(inp, s0, 1) ELSE [ok |-> TRUE, s |-> s0]
+      probe == IF s0.ipos = s0.len THEN Ensure(inp, s0, 1) ELSE [ok |-> TRUE, s |-> s0, io |-> FALSE]
       s == probe.s IN
-  IF ~probe.ok THEN
+  IF probe.io THEN [r |-> [r EXCEPT !.queue = @ \o <<IoErr>>], s |-> s]
+  ELSE IF ~probe.ok THEN
     [r |-> (IF cfg.eofClose THEN [r EXCEPT !.queue = @ \o EndsOf(r.stack, 1), !.stack = <<>>] ELSE r), s |-> s]
   ELSE LET rt == ReadTagB(sch, cfg, inp, r, s) IN
     IF rt.t = "err" THEN [r |-> [rt.r EXCEPT !.queue = @ \o <<rt.e>>], s |-> rt.s]
